@@ -265,8 +265,9 @@ def _load_mwfn_low(lit: LineIterator) -> dict:
     data["coeffs"] = _load_helper_section(lit, data["Nprimshell"], "", 0, float)
 
     # get number of basis & molecular orbitals (MO)
-    # Note: MWFN includes virtual orbitals, so num_mo equals number independent basis functions
-    num_basis = data["Nindbasis"]
+    # Note: MWFN includes virtual orbitals, so num_mo equals number independent basis functions.
+    # Each orbital is expanded in all Nbasis basis functions.
+    num_basis = data["Nbasis"]
     num_mo = data["Nindbasis"]
     if data["mo_kind"] == "unrestricted":
         num_mo *= 2
